@@ -44,6 +44,9 @@ func (cs corruptsim) Gen(prop, tier string, ts *sim.Tapes) *Case {
 	prog.Steps = append(prog.Steps, work.Step{Kind: "tx", Tx: &work.Txn{Mode: "update", End: "commit", Ops: []work.Op{
 		{Kind: "mkbi", Key: "last"}, {Kind: "nextseq", Path: []string{"last"}}}}})
 	c := &Case{Prop: prop, Engine: cs.Name(), Tier: tier, Seed: ts.Seed, Run: ts.Run, Prog: prog, Tapes: map[string][]uint64{}, Params: map[string]int{"foreign": foreign}}
+	if prop == "C19" && foreign == 0 && ts.Run%8 == 5 {
+		c.Params["twins"] = 1
+	}
 	if prop == "C11" && ts.Run%4 == 3 {
 		// the cleanly written file is a hot backup (Tx.WriteTo) of the history's end state: its two meta pages
 		// carry txid N and N-1 and describe the same content
@@ -116,6 +119,14 @@ func (cs corruptsim) Run(c *Case, dir string) *Outcome {
 	img, e, ok := cs.build(c, dir, out)
 	if !ok {
 		return out
+	}
+	if c.Prop == "C19" && c.Params["twins"] == 1 {
+		// two buckets filled identically in one transaction (their trees are twins), some free pages on a
+		// persisted freelist: the source for the "shared leaf" corruption
+		if timg, ok := buildTwins(c, dir, out); ok {
+			img = timg
+			out.probe("twin-buckets-source", 1)
+		}
 	}
 	if c.Prop == "C19" {
 		if c.Params["foreign"] == 1 {
@@ -462,6 +473,71 @@ func (cs corruptsim) runMeta(c *Case, dir string, img []byte, e *work.Exec, out 
 	out.Sample = map[string]any{"run": c.Run, "cfg": c.Prog.Cfg, "file_bytes": len(img), "damaged_images": out.Evals, "history": c.Prog.Describe(3)}
 }
 
+// buildTwins writes a small database with two identically filled buckets and a non-empty persisted freelist.
+func buildTwins(c *Case, dir string, out *Outcome) ([]byte, bool) {
+	path := filepath.Join(dir, "twins")
+	os.Remove(path)
+	defer os.Remove(path)
+	t := sim.NewTape(c.Seed, c.Run, "twins")
+	ps := c.Prog.Cfg.PageSize
+	if ps > 8192 {
+		ps = 4096
+	}
+	db, err := bolt.Open(path, 0600, &bolt.Options{PageSize: ps, NoSync: true})
+	if err != nil {
+		out.HarnessErr = err.Error()
+		return nil, false
+	}
+	n := 150 + t.Intn(300)
+	vl := 10 + t.Intn(60)
+	steps := []func(tx *bolt.Tx) error{
+		func(tx *bolt.Tx) error { // something to free later
+			b, err := tx.CreateBucket([]byte("junk"))
+			if err != nil {
+				return err
+			}
+			for i := 0; i < 60; i++ {
+				if err := b.Put([]byte(fmt.Sprintf("j%04d", i)), make([]byte, ps/3)); err != nil {
+					return err
+				}
+			}
+			return nil
+		},
+		func(tx *bolt.Tx) error { return tx.DeleteBucket([]byte("junk")) },
+		func(tx *bolt.Tx) error {
+			for _, name := range []string{"twin-a", "twin-b"} {
+				b, err := tx.CreateBucket([]byte(name))
+				if err != nil {
+					return err
+				}
+				for i := 0; i < n; i++ {
+					if err := b.Put([]byte(fmt.Sprintf("key-%05d", i)), work.MkVal(vl, uint32(i))); err != nil {
+						return err
+					}
+				}
+			}
+			return nil
+		},
+	}
+	for _, f := range steps {
+		if err := db.Update(f); err != nil {
+			_ = db.Close()
+			out.HarnessErr = err.Error()
+			return nil, false
+		}
+	}
+	if err := db.Close(); err != nil {
+		out.HarnessErr = err.Error()
+		return nil, false
+	}
+	img, err := os.ReadFile(path)
+	if err != nil {
+		out.HarnessErr = err.Error()
+		return nil, false
+	}
+	return img, true
+}
+
 // ---------------------------------------------------------------------------
 // C19
 
@@ -658,6 +734,63 @@ func structuralCorruptions(img []byte, ps int, res *dec.Result, t *sim.Tape) []c
 			break
 		}
 	}
+	// a leaf shared between the trees of two buckets, with the page that lost its reference put on the freelist:
+	// the double reference is then the only defect (no orphan, and - the two leaves being byte-identical apart
+	// from their ids - no key-order violation either)
+	if res.HasFreelist && len(res.FreelistPages) == 1 {
+		fo := pageOff(res.Meta.Freelist)
+		cnt := int(le.Uint16(img[fo+10:]))
+		room := (ps-dec.PageHeaderSize)/8 - cnt
+		shared := 0
+		for ai := 0; ai < len(brefs) && shared < 3 && cnt < 0xFFFE && room > 0; ai++ {
+			for bi := ai + 1; bi < len(brefs) && shared < 3; bi++ {
+				a, b := brefs[ai], brefs[bi]
+				if a.root == 0 || b.root == 0 || a.root == b.root {
+					continue
+				}
+				pa, pb := pageOff(a.root), pageOff(b.root)
+				if le.Uint16(img[pa+8:]) != dec.FlagBranch || le.Uint16(img[pb+8:]) != dec.FlagBranch {
+					continue
+				}
+				na, nb := int(le.Uint16(img[pa+10:])), int(le.Uint16(img[pb+10:]))
+				if na != nb || na < 2 || le.Uint32(img[pa+12:]) != 0 || le.Uint32(img[pb+12:]) != 0 {
+					continue
+				}
+				for i := 1; i < na; i++ {
+					ea := pa + dec.PageHeaderSize + i*dec.BranchElemSize
+					eb := pb + dec.PageHeaderSize + i*dec.BranchElemSize
+					ca, cb := le.Uint64(img[ea+8:]), le.Uint64(img[eb+8:])
+					if ca == cb || ca >= hwm || cb >= hwm {
+						continue
+					}
+					la, lb := pageOff(ca), pageOff(cb)
+					if le.Uint16(img[la+8:]) != dec.FlagLeaf || le.Uint16(img[lb+8:]) != dec.FlagLeaf || le.Uint32(img[la+12:]) != 0 || le.Uint32(img[lb+12:]) != 0 {
+						continue
+					}
+					if string(img[la+8:la+ps]) != string(img[lb+8:lb+ps]) {
+						continue // not twins
+					}
+					ebC, caC, cbC := eb, ca, cb
+					idsOff := fo + dec.PageHeaderSize
+					out = append(out, corruption{"multi-ref", fmt.Sprintf("leaf %d of bucket %q also linked from bucket %q (element %d of branch %d) in place of its identical twin %d, which is put on the freelist: the double reference is the only defect", ca, a.name, b.name, i, b.root, cb), func(x []byte) {
+						le.PutUint64(x[ebC+8:], caC)
+						ids := make([]uint64, 0, cnt+1)
+						for k := 0; k < cnt; k++ {
+							ids = append(ids, le.Uint64(x[idsOff+8*k:]))
+						}
+						ids = append(ids, cbC)
+						sort.Slice(ids, func(p, q int) bool { return ids[p] < ids[q] })
+						for k, id := range ids {
+							le.PutUint64(x[idsOff+8*k:], id)
+						}
+						le.PutUint16(x[fo+10:], uint16(cnt+1))
+					}})
+					shared++
+					break
+				}
+			}
+		}
+	}
 	_ = hwm
 	return out
 }
@@ -847,6 +980,6 @@ func init() {
 		Assume:   []string{"the 16-byte page header in front of the meta record is not part of the property and is not damaged", "zero-length files are new databases by definition and are not treated as damage"}})
 	register(&Info{Prop: "C19", Engine: cs, Level: "fault_enumeration", QuickS: 60, ThoroughS: 900,
 		RealStub: "real: bbolt Open + Tx.Check, and `bbolt check` from cmd/bbolt/command run in-process; injected: single structural corruptions written into a copy of a consistent file; referee: the independent decoder classifies the mutated image",
-		Rule:     "per seeded history (in a quarter of the runs the consistent file is the history's content laid out by the independent encoder dec/enc.go with layouts the current writer never produces - sparse pages, scattered ids, gaps, paged small buckets): the consistent file must report nothing (library and CLI exit 0); then a sweep of single structural corruptions over eligible pages/elements - free id removed (unreachable-unfreed), reachable page added to the freelist, free id duplicated, branch element redirected to a sibling's child (referenced twice), invalid page type, adjacent leaf elements / branch separators swapped (key order). The decoder decides which listed classes are really present in the mutated image: present -> Tx.Check must yield >= 1 error (recovered panics count) and `bbolt check` must fail; edit cancelled out -> nothing may be reported. distinct_nontrivial = distinct (file, corruption) pairs evaluated",
+		Rule:     "per seeded history (in a quarter of the runs the consistent file is the history's content laid out by the independent encoder dec/enc.go with layouts the current writer never produces - sparse pages, scattered ids, gaps, paged small buckets): the consistent file must report nothing (library and CLI exit 0); then a sweep of single structural corruptions over eligible pages/elements - free id removed (unreachable-unfreed), reachable page added to the freelist, free id duplicated, branch element redirected to a sibling's child (referenced twice), invalid page type, adjacent leaf elements / branch separators swapped (key order), a bucket header redirected to another bucket's root, and - on twin-bucket sources built for the purpose (one run in 8) - a leaf shared between the trees of two buckets with its orphaned twin put on the freelist, so that the double reference is the only defect. The decoder decides which listed classes are really present in the mutated image: present -> Tx.Check must yield >= 1 error (recovered panics count) and `bbolt check` must fail; edit cancelled out -> nothing may be reported. distinct_nontrivial = distinct (file, corruption) pairs evaluated",
 		Assume:   []string{"only files with a single-page persisted freelist get freelist edits", "corruptions that the decoder classifies only outside the listed classes (bounds, ids) carry no expectation"}})
 }
